@@ -143,13 +143,16 @@ func (o c14Obj) lisp() string {
 }
 
 type c14Seq struct {
-	kind  string // list | vector | string | nil (the empty list written as nil)
+	kind  string // list | vector | string | octets | nil (the empty list written as nil)
 	elems []c14Obj
 	tname string // element type (for drawing the variant used by the re-evaluation)
+	// hidden: elements of a vector beyond its fill pointer (the vector is made with make-array
+	// :fill-pointer; as a sequence it consists of elems only)
+	hidden []c14Obj
 }
 
 func (s c14Seq) wire() string {
-	tag := map[string]string{"list": "L", "vector": "V", "string": "S", "nil": "L"}[s.kind]
+	tag := map[string]string{"list": "L", "vector": "V", "string": "S", "nil": "L", "octets": "O"}[s.kind]
 	parts := make([]string, len(s.elems))
 	for i, e := range s.elems {
 		parts[i] = e.wire()
@@ -170,6 +173,23 @@ func (s c14Seq) lisp() string {
 		b.WriteByte('"')
 		return b.String()
 	}
+	if s.kind == "octets" {
+		if len(s.elems) == 0 {
+			return "(coerce '() 'octets)"
+		}
+		parts := make([]string, len(s.elems))
+		for i, e := range s.elems {
+			parts[i] = e.lisp()
+		}
+		return "(coerce (list " + strings.Join(parts, " ") + ") 'octets)"
+	}
+	if s.kind == "vector" && len(s.hidden) > 0 {
+		parts := make([]string, 0, len(s.elems)+len(s.hidden))
+		for _, e := range append(append([]c14Obj{}, s.elems...), s.hidden...) {
+			parts = append(parts, e.lisp())
+		}
+		return fmt.Sprintf("(make-array %d :fill-pointer %d :initial-contents (list %s))", len(parts), len(s.elems), strings.Join(parts, " "))
+	}
 	if len(s.elems) == 0 {
 		if s.kind == "list" {
 			return "'()"
@@ -183,8 +203,26 @@ func (s c14Seq) lisp() string {
 	return "(" + s.kind + " " + strings.Join(parts, " ") + ")"
 }
 
-// c14Wire converts an implementation result into the wire term. want: "obj" or "seq".
+// c14Wire converts an implementation result into the wire term. want: "obj" or "seq"; with "+trace"
+// the value is (result calls): `<result> |<arg>,<arg>/<arg>,<arg>/…`
 func c14Wire(v slip.Object, want string) string {
+	if base, ok := strings.CutSuffix(want, "+trace"); ok {
+		pair, _ := v.(slip.List)
+		if len(pair) != 2 {
+			return "?no-trace"
+		}
+		calls, _ := pair[1].(slip.List)
+		var cw []string
+		for _, c := range calls {
+			args, _ := c.(slip.List)
+			aw := make([]string, len(args))
+			for i, a := range args {
+				aw[i] = c14Wire(a, "obj")
+			}
+			cw = append(cw, strings.Join(aw, ","))
+		}
+		return c14Wire(pair[0], base) + " |" + strings.Join(cw, "/")
+	}
 	if want == "seq" {
 		switch tv := v.(type) {
 		case nil:
@@ -212,6 +250,12 @@ func c14Wire(v slip.Object, want string) string {
 				parts[i] = fmt.Sprintf("c%d", r)
 			}
 			return "S[" + strings.Join(parts, ",") + "]"
+		case slip.Octets:
+			parts := make([]string, len(tv))
+			for i, o := range tv {
+				parts[i] = fmt.Sprintf("i%d", o)
+			}
+			return "O[" + strings.Join(parts, ",") + "]"
 		}
 		return "?" + strings.ToLower(string(v.Hierarchy()[0]))
 	}
@@ -219,6 +263,8 @@ func c14Wire(v slip.Object, want string) string {
 	case nil:
 		return "n"
 	case slip.Fixnum:
+		return fmt.Sprintf("i%d", int64(tv))
+	case slip.Octet:
 		return fmt.Sprintf("i%d", int64(tv))
 	case slip.Symbol:
 		return "y" + fmt.Sprintf("%x", strings.ToLower(string(tv)))
@@ -259,7 +305,7 @@ func c14Pretty(w string) string {
 			return "?"
 		}
 		switch ch := w[pos]; {
-		case ch == 'L' || ch == 'V' || ch == 'S':
+		case ch == 'L' || ch == 'V' || ch == 'S' || ch == 'O':
 			pos += 2 // tag and [
 			var parts []string
 			for pos < len(w) && w[pos] != ']' {
@@ -272,6 +318,8 @@ func c14Pretty(w string) string {
 			switch ch {
 			case 'V':
 				return "#(" + strings.Join(parts, " ") + ")"
+			case 'O':
+				return "#<octets " + strings.Join(parts, " ") + ">"
 			case 'S':
 				var b strings.Builder
 				for _, p := range parts {
@@ -400,6 +448,11 @@ var (
 	c14TSym  = c14Type{"sym", []c14Obj{c14Sym("a"), c14Sym("b"), c14Sym("c"), c14Sym("d")}}
 	c14TInt  = c14Type{"int", []c14Obj{c14Int(0), c14Int(1), c14Int(2), c14Int(3)}}
 	c14TChar = c14Type{"char", []c14Obj{c14Chr('a'), c14Chr('b'), c14Chr('c'), c14Chr('d')}}
+	// characters that take more than one byte in a Go string (no case variants): a string's length in
+	// bytes is then not its number of characters
+	c14TUChar = c14Type{"uchar", []c14Obj{c14Chr('a'), c14Chr('→'), c14Chr('b'), c14Chr('∀')}}
+	// octets: the elements of slip's byte vectors
+	c14TOct = c14Type{"oct", []c14Obj{c14Int(97), c14Int(98), c14Int(99), c14Int(100)}}
 	c14TPair = c14Type{"pair", []c14Obj{c14Pair(c14Sym("a"), c14Int(1)), c14Pair(c14Sym("b"), c14Int(2)),
 		c14Pair(c14Sym("a"), c14Int(2)), c14Pair(c14Sym("b"), c14Int(1))}}
 	c14TIPair = c14Type{"ipair", []c14Obj{c14Pair(c14Int(1), c14Sym("a")), c14Pair(c14Int(2), c14Sym("b")),
@@ -420,9 +473,13 @@ var (
 func c14TypesFor(kind string) []c14Type {
 	switch kind {
 	case "string":
-		return []c14Type{c14TChar}
+		return []c14Type{c14TChar, c14TUChar}
+	case "octets":
+		return []c14Type{c14TOct}
 	case "vector":
 		return []c14Type{c14TInt, c14TSym, c14TLst}
+	case "fpvector":
+		return []c14Type{c14TSym, c14TInt}
 	}
 	return []c14Type{c14TSym, c14TInt, c14TPair, c14TChar, c14TIPair, c14TLst, c14TILst}
 }
@@ -446,6 +503,13 @@ func c14Keys(t string) []c14Key {
 		return []c14Key{{"", "char", id},
 			{"char-code", "int", func(o c14Obj) c14Obj { return c14Int(int(o.i)) }},
 			{"upcase", "char", func(o c14Obj) c14Obj { return c14Chr(rune(o.i) - 32) }}}
+	case "uchar":
+		return []c14Key{{"", "char", id},
+			{"char-code", "int", func(o c14Obj) c14Obj { return c14Int(int(o.i)) }}}
+	case "oct":
+		return []c14Key{{"", "int", id},
+			{"1+", "int", func(o c14Obj) c14Obj { return c14Int(int(o.i) + 1) }},
+			{"mod2", "int", func(o c14Obj) c14Obj { return c14Int(int(o.i) % 2) }}}
 	case "pair":
 		return []c14Key{{"", "pair", id},
 			{"car", "sym", func(o c14Obj) c14Obj { return *o.a }},
@@ -637,7 +701,7 @@ type c14Case struct {
 	Kind    string   `json:"kind"`  // kind of the (first) sequence: list | vector | string | nil
 	Keys    []string `json:"keys"`  // keywords present (sorted), decorated with the boundary class of the value
 	Class   string   `json:"class"` // input class that replaces the keyword set in the signature ("" = none)
-	Src     string   `json:"src"`   // lisp source evaluated by slip: the call form is the body of a lambda that is called three times (arguments A, A, B)
+	Src     string   `json:"src"`   // lisp source evaluated by slip: the call form is the body of a lambda that is called three times (arguments A, B, A)
 	Req     string   `json:"req"`   // model request for the arguments A
 	ReqB    string   `json:"req_b"` // model request for the arguments B (same keywords, other sequences)
 	Call    string   `json:"call"`  // the call form itself (body of the lambda), for messages
@@ -647,12 +711,20 @@ type c14Case struct {
 	Nontriv bool     `json:"nontrivial"`
 }
 
+// c14KwEnt: one keyword argument of the call under construction
+type c14KwEnt struct {
+	name string // keyword name without the colon
+	ref  string // how its value is written in the call form: a literal or a parameter of the enclosing lambda
+	a, b string // value expressions for the arguments A and B (a literal: the same)
+	fidx int    // index of its model field in fields (-1: none)
+}
+
 // c14Builder assembles source and request for one call
 type c14Builder struct {
 	entry   string // model entry when it differs from the lisp function (nunion -> union)
 	fn      string
 	pos     []string // positional lisp arguments
-	kwsrc   []string // keyword lisp text, in order
+	kws     []c14KwEnt
 	fields  []string // model fields ({k} stands for the k-th sequence parameter)
 	keys    []string
 	fieldsB map[int]string      // fields whose value differs for the arguments B (index into fields)
@@ -660,6 +732,11 @@ type c14Builder struct {
 	seqs    []c14Seq            // sequence parameters s1, s2 … (arguments A)
 	vary    func(c14Seq) c14Seq // draws the variant B of a sequence parameter
 	post    func(c14Seq) c14Seq // invariant the function needs of its sequences (merge: sorted)
+	traced  bool                // the function argument records its calls: each evaluation answers (result calls)
+	// spread: the call is written (apply 'fn positional… kwlist) with the keyword arguments in a list that
+	// is a parameter; drop says for each keyword whether the list of the arguments A (1) or B (2) lacks it
+	spread bool
+	drop   func(name string) int
 }
 
 // seq registers a sequence parameter: the call form refers to it as a variable of the enclosing lambda
@@ -687,15 +764,17 @@ func (b *c14Builder) arg(lisp string, field string) {
 }
 
 func (b *c14Builder) kw(name, lisp, field string) {
-	b.kwsrc = append(b.kwsrc, ":"+name+" "+lisp)
+	fidx := -1
 	if field != "" {
 		b.fields = append(b.fields, field)
+		fidx = len(b.fields) - 1
 	}
+	b.kws = append(b.kws, c14KwEnt{name: name, ref: lisp, a: lisp, b: lisp, fidx: fidx})
 	b.keys = append(b.keys, name)
 }
 
-// scalar registers a scalar parameter of the enclosing lambda (a keyword value, the item) whose value
-// is lispA in the first two evaluations and lispB in the third; returns the variable name
+// scalar registers a scalar parameter of the enclosing lambda (a keyword value, the item, a function)
+// whose value is lispA in the first and third evaluation and lispB in the second; returns the variable name
 func (b *c14Builder) scalar(lispA, fieldA, lispB, fieldB string) string {
 	b.scal = append(b.scal, [2]string{lispA, lispB})
 	if fieldA != "" || fieldB != "" {
@@ -712,12 +791,17 @@ func (b *c14Builder) scalar(lispA, fieldA, lispB, fieldB string) string {
 
 // kwVar: a keyword whose value is a scalar parameter (A and B values of the same boundary class)
 func (b *c14Builder) kwVar(name, token, lispA, fieldA, lispB, fieldB string) {
+	n := len(b.fields)
 	v := b.scalar(lispA, fieldA, lispB, fieldB)
-	b.kwsrc = append(b.kwsrc, ":"+name+" "+v)
+	fidx := -1
+	if len(b.fields) > n {
+		fidx = n
+	}
+	b.kws = append(b.kws, c14KwEnt{name: name, ref: v, a: lispA, b: lispB, fidx: fidx})
 	b.keys = append(b.keys, token)
 }
 
-// argVar: a positional scalar argument (item, start of subseq …) as a parameter
+// argVar: a positional scalar argument (item, start of subseq, a function) as a parameter
 func (b *c14Builder) argVar(lispA, fieldA, lispB, fieldB string) {
 	b.pos = append(b.pos, b.scalar(lispA, fieldA, lispB, fieldB))
 }
@@ -729,9 +813,37 @@ func (b *c14Builder) kwTok(name, token, lisp, field string) {
 }
 
 func (b *c14Builder) done(kind, want, check string, sweep bool) c14Case {
+	var kwsrc []string
+	for _, k := range b.kws {
+		kwsrc = append(kwsrc, ":"+k.name+" "+k.ref)
+	}
+	call := "(" + b.fn + " " + strings.Join(append(append([]string{}, b.pos...), kwsrc...), " ") + ")"
+	// the keyword arguments as one list handed to apply; some keywords are absent from the list of A or of B
+	dropA, dropB := map[int]bool{}, map[int]bool{}
+	var plistA, plistB []string
+	spread := b.spread && len(b.kws) > 0 && !strings.Contains(call, "§K§")
+	if spread {
+		for _, k := range b.kws {
+			d := 0
+			if b.drop != nil {
+				d = b.drop(k.name)
+			}
+			if d == 1 {
+				dropA[k.fidx] = true
+			} else {
+				plistA = append(plistA, ":"+k.name+" "+k.a)
+			}
+			if d == 2 {
+				dropB[k.fidx] = true
+			} else {
+				plistB = append(plistB, ":"+k.name+" "+k.b)
+			}
+		}
+		call = "(apply '" + b.fn + " " + strings.Join(append(append([]string{}, b.pos...), "kwp"), " ") + ")"
+		b.keys = append(b.keys, "@spread")
+	}
 	keys := append([]string{}, b.keys...)
 	sort.Strings(keys)
-	call := "(" + b.fn + " " + strings.Join(append(append([]string{}, b.pos...), b.kwsrc...), " ") + ")"
 	entry := b.fn
 	if b.entry != "" {
 		entry = b.entry
@@ -742,10 +854,10 @@ func (b *c14Builder) done(kind, want, check string, sweep bool) c14Case {
 		if v, ok := b.fieldsB[i]; ok {
 			fbv = v
 		}
-		if fld != "" {
+		if fld != "" && !dropA[i] {
 			fa = append(fa, fld)
 		}
-		if fbv != "" {
+		if fbv != "" && !dropB[i] {
 			fb = append(fb, fbv)
 		}
 	}
@@ -774,15 +886,29 @@ func (b *c14Builder) done(kind, want, check string, sweep bool) c14Case {
 		argsB = append(argsB, sc[1])
 		pass += fmt.Sprintf(" k%d", i+1)
 	}
+	if spread {
+		params = append(params, "kwp")
+		argsA = append(argsA, "(list "+strings.Join(plistA, " ")+")")
+		argsB = append(argsB, "(list "+strings.Join(plistB, " ")+")")
+	}
 	// a user function that re-enters the form hands the scalar parameters on unchanged
 	call = strings.ReplaceAll(call, "§K§", pass)
 	ca := "(funcall f " + strings.Join(argsA, " ") + ")"
 	cb := "(funcall f " + strings.Join(argsB, " ") + ")"
-	// the call form is compiled once (body of the lambda) and evaluated three times: twice with the
-	// same arguments, once with other sequences and other keyword values; `f` is visible in the body so that user functions
-	// can re-enter the very same form
-	src := "(let ((f nil)) (setq f (lambda (" + strings.Join(params, " ") + ") " + call + ")) (list " + ca + " " + ca + " " + cb + "))"
-	return c14Case{Fn: b.fn, Kind: kind, Keys: keys, Src: src, Call: call + " with " + strings.Join(argsA, " "), Req: reqA, ReqB: reqB, Want: want, Check: check, Sweep: sweep}
+	// the call form is compiled once (body of the lambda) and evaluated three times: with the arguments A,
+	// then with B (other sequences, other keyword values, other :key / :test / predicate functions — all
+	// of them parameters of the lambda), then with A again; `f` is visible in the body so that user
+	// functions can re-enter the very same form
+	src := "(let ((f nil)) (setq f (lambda (" + strings.Join(params, " ") + ") " + call + ")) (list " + ca + " " + cb + " " + ca + "))"
+	if b.traced {
+		// every evaluation starts with an empty log and answers (result calls-in-order)
+		src = "(let ((f nil) (log nil)) (setq f (lambda (" + strings.Join(params, " ") + ") (setq log nil) (let ((r " + call + ")) (list r (reverse log))))) (list " + ca + " " + cb + " " + ca + "))"
+		want += "+trace"
+	}
+	if kind == "fpvector" {
+		kind = "vector+fp"
+	}
+	return c14Case{Fn: b.fn, Kind: kind, Keys: keys, Src: src, Call: call + " with " + strings.Join(argsA, " ") + " / " + strings.Join(argsB, " "), Req: reqA, ReqB: reqB, Want: want, Check: check, Sweep: sweep}
 }
 
 // chooser: how keyword values and operands are picked. The sweep enumerates (deterministic product),
@@ -794,6 +920,17 @@ type c14Pick interface {
 type c14Rand struct{ r *lib.Rng }
 
 func (p c14Rand) n(n int) int { return p.r.Intn(n) }
+
+// c14LCG: a fixed pseudo-random chooser (seed independent) for the long sequences of the sort sweep
+type c14LCG struct{ x uint32 }
+
+func (l *c14LCG) n(n int) int {
+	if n <= 0 {
+		return 0
+	}
+	l.x = l.x*1664525 + 1013904223
+	return int((l.x >> 8) % uint32(n))
+}
 
 // c14Enum enumerates all index vectors: each call to n() consumes one digit; after a run, next()
 // advances. Digits beyond the recorded ones default to 0.
@@ -849,23 +986,26 @@ type c14Fun struct {
 
 var c14AllKinds = []string{"list", "vector", "string"}
 
+// the functions with a branch for slip's octets vectors
+var c14Kinds4 = []string{"list", "vector", "string", "octets"}
+
 func c14Funs() []c14Fun {
 	var fs []c14Fun
 	scan := []string{"key", "test", "testnot", "start", "end", "fromend"}
 	scanIf := []string{"key", "start", "end", "fromend"}
 	for _, base := range []string{"find", "position", "count"} {
-		fs = append(fs, c14Fun{base, "scan", "item", scan, c14AllKinds},
-			c14Fun{base + "-if", "scan", "if", scanIf, c14AllKinds},
+		fs = append(fs, c14Fun{base, "scan", "item", scan, c14Kinds4},
+			c14Fun{base + "-if", "scan", "if", scanIf, c14Kinds4},
 			c14Fun{base + "-if-not", "scan", "ifnot", scanIf, c14AllKinds})
 	}
 	for _, base := range []string{"remove", "delete", "substitute", "nsubstitute"} {
-		fs = append(fs, c14Fun{base, "scanc", "item", append(append([]string{}, scan...), "count"), c14AllKinds},
-			c14Fun{base + "-if", "scanc", "if", append(append([]string{}, scanIf...), "count"), c14AllKinds},
+		fs = append(fs, c14Fun{base, "scanc", "item", append(append([]string{}, scan...), "count"), c14Kinds4},
+			c14Fun{base + "-if", "scanc", "if", append(append([]string{}, scanIf...), "count"), c14Kinds4},
 			c14Fun{base + "-if-not", "scanc", "ifnot", append(append([]string{}, scanIf...), "count"), c14AllKinds})
 	}
 	for _, n := range []string{"remove-duplicates", "delete-duplicates"} {
 		// :test-not on remove-duplicates denotes a non-transitive relation: result left open, not generated
-		fs = append(fs, c14Fun{n, "dups", "", []string{"key", "test", "start", "end", "fromend"}, c14AllKinds})
+		fs = append(fs, c14Fun{n, "dups", "", []string{"key", "test", "start", "end", "fromend"}, c14Kinds4})
 	}
 	for _, base := range []string{"member", "assoc", "rassoc"} {
 		fs = append(fs, c14Fun{base, "alist", "item", []string{"key", "test", "testnot"}, []string{"list"}},
@@ -873,11 +1013,11 @@ func c14Funs() []c14Fun {
 			c14Fun{base + "-if-not", "alist", "ifnot", []string{"key"}, []string{"list"}})
 	}
 	two := []string{"key", "test", "testnot", "start1", "end1", "start2", "end2", "fromend"}
-	fs = append(fs, c14Fun{"search", "search", "", two, c14AllKinds}, c14Fun{"mismatch", "mismatch", "", two, c14AllKinds})
-	fs = append(fs, c14Fun{"subseq", "subseq", "", []string{"start", "end"}, c14AllKinds})
-	fs = append(fs, c14Fun{"fill", "fill", "", []string{"start", "end"}, c14AllKinds})
-	fs = append(fs, c14Fun{"replace", "replace", "", []string{"start1", "end1", "start2", "end2"}, c14AllKinds})
-	fs = append(fs, c14Fun{"reverse", "reverse", "", nil, c14AllKinds}, c14Fun{"nreverse", "reverse", "", nil, c14AllKinds})
+	fs = append(fs, c14Fun{"search", "search", "", two, c14Kinds4}, c14Fun{"mismatch", "mismatch", "", two, c14Kinds4})
+	fs = append(fs, c14Fun{"subseq", "subseq", "", []string{"start", "end"}, c14Kinds4})
+	fs = append(fs, c14Fun{"fill", "fill", "", []string{"start", "end"}, c14Kinds4})
+	fs = append(fs, c14Fun{"replace", "replace", "", []string{"start1", "end1", "start2", "end2"}, c14Kinds4})
+	fs = append(fs, c14Fun{"reverse", "reverse", "", nil, c14Kinds4}, c14Fun{"nreverse", "reverse", "", nil, c14Kinds4})
 	fs = append(fs, c14Fun{"sort", "sort", "", []string{"key"}, c14AllKinds}, c14Fun{"stable-sort", "sort", "", []string{"key"}, c14AllKinds})
 	fs = append(fs, c14Fun{"merge", "merge", "", []string{"key"}, c14AllKinds})
 	for _, n := range []string{"union", "intersection", "set-difference", "subsetp", "nunion", "nintersection", "nset-difference"} {
@@ -887,7 +1027,7 @@ func c14Funs() []c14Fun {
 		fs = append(fs, c14Fun{n, "quant", "", nil, c14AllKinds})
 	}
 	fs = append(fs, c14Fun{"map", "map", "", nil, c14AllKinds}, c14Fun{"mapcar", "mapcar", "", nil, []string{"list"}})
-	fs = append(fs, c14Fun{"reduce", "reduce", "", []string{"key", "start", "end", "fromend", "init"}, c14AllKinds})
+	fs = append(fs, c14Fun{"reduce", "reduce", "", []string{"key", "start", "end", "fromend", "init"}, c14Kinds4})
 	fs = append(fs, c14Fun{"concatenate", "concatenate", "", nil, c14AllKinds})
 	return fs
 }
@@ -912,6 +1052,13 @@ func c14RandomSeq(p c14Pick, t c14Type, kind string, n int) c14Seq {
 	s := c14Seq{kind: kind, tname: t.name}
 	for i := 0; i < n; i++ {
 		s.elems = append(s.elems, t.alpha[p.n(len(t.alpha))])
+	}
+	if kind == "fpvector" {
+		// a vector with a fill pointer: one to three more elements lie beyond it
+		s.kind = "vector"
+		for i, m := 0, 1+p.n(3); i < m; i++ {
+			s.hidden = append(s.hidden, t.alpha[p.n(len(t.alpha))])
+		}
 	}
 	return s
 }
@@ -1000,6 +1147,31 @@ func c14BoundsV(b *c14Builder, p c14Pick, use []string, startName, endName strin
 // keywords `use`. Returns ok=false when the combination does not exist (e.g. :test on a -if).
 func c14Build(f c14Fun, kind string, t c14Type, seqLen int, use []string, p c14Pick, sweep bool, sweepSeqs bool) (c14Case, bool) {
 	b := &c14Builder{fn: f.name}
+	// B variant of a function-valued argument (:key, :test, predicate, order, mapped function): every one
+	// of them is a parameter of the enclosing lambda. The sweep varies one of them (the first that has an
+	// alternative), the composite generator each with probability 1/2.
+	variedFn := false
+	pickB := func(list []string, a string) string {
+		if len(list) < 2 {
+			return a
+		}
+		if sweep {
+			if variedFn {
+				return a
+			}
+			for i, x := range list {
+				if x == a {
+					variedFn = true
+					return list[(i+1)%len(list)]
+				}
+			}
+			return a
+		}
+		if p.n(2) == 0 {
+			return a
+		}
+		return list[p.n(len(list))]
+	}
 	mkSeq := func(n int) c14Seq {
 		if sweepSeqs {
 			return c14SweepSeq(t, kind, p)
@@ -1008,15 +1180,66 @@ func c14Build(f c14Fun, kind string, t c14Type, seqLen int, use []string, p c14P
 	}
 	// self role: one user function of the call re-enters the call itself on nested lists
 	self := ""
+	otherKind := "" // kind of the other sequence of search / mismatch (sequence-1) and replace (sequence-2)
+	traced := false // the function argument records its calls
 	var use2 []string
 	for _, u := range use {
-		if strings.HasPrefix(u, "self:") {
+		switch {
+		case strings.HasPrefix(u, "self:"):
 			self = u[5:]
-		} else {
+		case strings.HasPrefix(u, "other:"):
+			otherKind = u[6:]
+		case u == "trace":
+			traced = true
+		case u == "spread":
+			// the keyword arguments travel in a list handed to apply; the bounding / count / direction
+			// keywords are absent from the list of one of the two argument sets
+			b.spread = true
+			b.drop = func(name string) int {
+				switch name {
+				case "start", "end", "start1", "end1", "start2", "end2":
+					if f.fam == "reduce" || f.fam == "fill" {
+						return 0 // emptiness of the range is an input class of its own there
+					}
+					return p.n(3)
+				case "count", "from-end":
+					return p.n(3)
+				}
+				return 0
+			}
+		default:
 			use2 = append(use2, u)
 		}
 	}
 	use = use2
+	sigKind := kind
+	if otherKind != "" {
+		if !(f.fam == "search" || f.fam == "mismatch" || f.fam == "replace") || otherKind == kind || !c14KindHolds(otherKind, t) || !c14KindHolds(kind, t) {
+			return c14Case{}, false
+		}
+		if f.fam == "replace" {
+			sigKind = kind + "<-" + otherKind
+		} else {
+			sigKind = otherKind + "/" + kind
+		}
+	}
+	if traced && (self != "" || !(f.fam == "quant" || f.fam == "map" || f.fam == "mapcar" || f.fam == "reduce")) {
+		return c14Case{}, false
+	}
+	if kind == "fpvector" {
+		switch f.fam {
+		case "merge", "map", "mapcar", "concatenate", "set", "alist":
+			return c14Case{}, false
+		}
+	}
+	kind1, kind2 := kind, kind
+	if otherKind != "" {
+		if f.fam == "replace" {
+			kind2 = otherKind
+		} else {
+			kind1 = otherKind
+		}
+	}
 	bounded := false
 	for _, u := range use {
 		if strings.HasPrefix(u, "start") || strings.HasPrefix(u, "end") {
@@ -1024,7 +1247,7 @@ func c14Build(f c14Fun, kind string, t c14Type, seqLen int, use []string, p c14P
 		}
 	}
 	if self != "" {
-		if (t.name != "nest" && t.name != "inest") || bounded || kind == "string" || !c14SelfOK(f, self) {
+		if (t.name != "nest" && t.name != "inest") || bounded || kind == "string" || kind == "octets" || kind == "fpvector" || otherKind != "" || !c14SelfOK(f, self) {
 			return c14Case{}, false
 		}
 		if self == "key" && c14Has(use, "key") || (self == "test" || self == "test1") && (c14Has(use, "test") || c14Has(use, "testnot")) {
@@ -1038,7 +1261,7 @@ func c14Build(f c14Fun, kind string, t c14Type, seqLen int, use []string, p c14P
 	fixedLen := bounded || f.fam == "reduce" || f.fam == "fill" || f.fam == "subseq"
 	b.vary = func(a c14Seq) c14Seq {
 		if sweep {
-			r := c14Seq{kind: a.kind, tname: a.tname}
+			r := c14Seq{kind: a.kind, tname: a.tname, hidden: a.hidden}
 			for i := len(a.elems) - 1; 0 <= i; i-- {
 				r.elems = append(r.elems, a.elems[i])
 			}
@@ -1048,7 +1271,11 @@ func c14Build(f c14Fun, kind string, t c14Type, seqLen int, use []string, p c14P
 		if !fixedLen && p.n(2) == 0 {
 			n = p.n(9)
 		}
-		return c14RandomSeq(p, c14TypeByName(a.tname), a.kind, n)
+		ak := a.kind
+		if len(a.hidden) > 0 {
+			ak = "fpvector"
+		}
+		return c14RandomSeq(p, c14TypeByName(a.tname), ak, n)
 	}
 	selfLambda := func(base string) string {
 		atom := "x"
@@ -1072,14 +1299,35 @@ func c14Build(f c14Fun, kind string, t c14Type, seqLen int, use []string, p c14P
 		}
 		key = keys[1+p.n(len(keys)-1)]
 	}
+	// the key of the arguments B: another key function of the type with the same kind of values
+	keyBOf := func(key c14Key, all []c14Key) c14Key {
+		if key.wire == "" || self == "key" {
+			return key
+		}
+		var cands []string
+		for _, k2 := range all[1:] {
+			if k2.to == key.to {
+				cands = append(cands, k2.wire)
+			}
+		}
+		w := pickB(cands, key.wire)
+		for _, k2 := range all {
+			if k2.wire == w {
+				return k2
+			}
+		}
+		return key
+	}
+	keyB := keyBOf(key, keys)
 	image := c14Image(t, key)
+	imageB := c14Image(t, keyB)
 	addKey := func() {
 		if self == "key" {
 			b.kwTok("key", "key@self", selfLambda(""), "self=key")
 			return
 		}
 		if key.wire != "" {
-			b.kw("key", c14FnLisp(key.wire), "key="+key.wire)
+			b.kwVar("key", "key", c14FnLisp(key.wire), "key="+key.wire, c14FnLisp(keyB.wire), "key="+keyB.wire)
 		}
 	}
 	addTest := func(equivOnly bool) bool {
@@ -1095,11 +1343,12 @@ func c14Build(f c14Fun, kind string, t c14Type, seqLen int, use []string, p c14P
 			if c14Has(use, name) {
 				ts := c14Tests(key.to, equivOnly)
 				tw := ts[p.n(len(ts))]
+				tb := pickB(ts, tw)
 				lname := "test"
 				if name == "testnot" {
 					lname = "test-not"
 				}
-				b.kw(lname, c14FnLisp(tw), name+"="+tw)
+				b.kwVar(lname, lname, c14FnLisp(tw), name+"="+tw, c14FnLisp(tb), name+"="+tb)
 			}
 		}
 		return true
@@ -1127,16 +1376,18 @@ func c14Build(f c14Fun, kind string, t c14Type, seqLen int, use []string, p c14P
 		base := strings.TrimSuffix(strings.TrimSuffix(f.name, "-if-not"), "-if")
 		if base == "substitute" || base == "nsubstitute" {
 			nw := t.alpha[3]
-			if kind != "string" && p.n(3) == 0 {
+			if kind != "string" && kind != "octets" && p.n(3) == 0 {
 				nw = c14Sym("z")
 			}
-			b.arg(nw.lisp(), "new="+nw.wire())
+			b.arg(c14ElemLisp(kind, nw), "new="+nw.wire())
 		}
 		if f.mode == "item" {
 			item := image[p.n(len(image))]
 			itemB := item
 			if !sweep {
-				itemB = image[p.n(len(image))]
+				itemB = imageB[p.n(len(imageB))]
+			} else if keyB.wire != key.wire {
+				itemB = imageB[0]
 			}
 			b.argVar(item.lisp(), "item="+item.wire(), itemB.lisp(), "item="+itemB.wire())
 		} else if self == "pred" {
@@ -1147,7 +1398,8 @@ func c14Build(f c14Fun, kind string, t c14Type, seqLen int, use []string, p c14P
 		} else {
 			ps := c14Preds(key.to, image)
 			pr := ps[p.n(len(ps))]
-			b.arg(pr[1], "pred="+pr[0])
+			prB := c14PredB(ps, pr, pickB)
+			b.argVar(pr[1], "pred="+pr[0], prB[1], "pred="+prB[0])
 		}
 		b.seq("seq", s)
 		addKey()
@@ -1216,6 +1468,7 @@ func c14Build(f c14Fun, kind string, t c14Type, seqLen int, use []string, p c14P
 				}
 				key = pkeys[1+p.n(len(pkeys)-1)]
 			}
+			keyB = keyBOf(key, pkeys)
 			tgtImage = c14Image(proj, key)
 		}
 		if f.mode == "item" {
@@ -1229,7 +1482,8 @@ func c14Build(f c14Fun, kind string, t c14Type, seqLen int, use []string, p c14P
 		} else {
 			ps := c14Preds(key.to, tgtImage)
 			pr := ps[p.n(len(ps))]
-			b.arg(pr[1], "pred="+pr[0])
+			prB := c14PredB(ps, pr, pickB)
+			b.argVar(pr[1], "pred="+pr[0], prB[1], "pred="+prB[0])
 		}
 		b.seq("seq", s)
 		addKey()
@@ -1239,10 +1493,10 @@ func c14Build(f c14Fun, kind string, t c14Type, seqLen int, use []string, p c14P
 		s2 := mkSeq(seqLen)
 		var s1 c14Seq
 		if sweepSeqs {
-			s1 = c14SweepSeq(t, kind, p)
+			s1 = c14SweepSeq(t, kind1, p)
 		} else {
 			// mostly a window of s2 (possibly perturbed) so that matches happen
-			s1 = c14Seq{kind: kind, tname: t.name}
+			s1 = c14Seq{kind: kind1, tname: t.name}
 			if len(s2.elems) > 0 && p.n(4) != 0 {
 				a := p.n(len(s2.elems) + 1)
 				z := a + p.n(len(s2.elems)-a+1)
@@ -1251,9 +1505,12 @@ func c14Build(f c14Fun, kind string, t c14Type, seqLen int, use []string, p c14P
 					s1.elems[p.n(len(s1.elems))] = t.alpha[p.n(len(t.alpha))]
 				}
 			} else {
-				s1 = c14RandomSeq(p, t, kind, p.n(4))
+				s1 = c14RandomSeq(p, t, kind1, p.n(4))
 			}
-			if f.fam == "mismatch" && p.n(2) == 0 {
+			if s1.kind == "fpvector" {
+				s1.kind = "vector"
+			}
+			if f.fam == "mismatch" && p.n(2) == 0 && otherKind == "" {
 				s1, s2 = s2, s1
 			}
 		}
@@ -1264,7 +1521,7 @@ func c14Build(f c14Fun, kind string, t c14Type, seqLen int, use []string, p c14P
 		c14Bounds(b, p, use, "start1", "end1", len(s1.elems), sweep)
 		c14Bounds(b, p, use, "start2", "end2", len(s2.elems), sweep)
 		fromEnd()
-		return b.done(kind, "obj", "", sweep), true
+		return b.done(sigKind, "obj", "", sweep), true
 	case "subseq":
 		s := mkSeq(seqLen)
 		b.seq("seq", s)
@@ -1297,11 +1554,11 @@ func c14Build(f c14Fun, kind string, t c14Type, seqLen int, use []string, p c14P
 	case "fill":
 		s := mkSeq(seqLen)
 		item := t.alpha[3]
-		if kind != "string" && p.n(3) == 0 {
+		if kind != "string" && kind != "octets" && p.n(3) == 0 {
 			item = c14Sym("z")
 		}
 		b.seq("seq", s)
-		b.arg(item.lisp(), "item="+item.wire())
+		b.arg(c14ElemLisp(kind, item), "item="+item.wire())
 		c14Bounds(b, p, use, "start", "end", len(s.elems), sweep)
 		cs := b.done(kind, "seq", "", sweep)
 		if len(s.elems) == 0 {
@@ -1312,15 +1569,15 @@ func c14Build(f c14Fun, kind string, t c14Type, seqLen int, use []string, p c14P
 		s1 := mkSeq(seqLen)
 		var s2 c14Seq
 		if sweepSeqs {
-			s2 = c14SweepSeq(t, kind, p)
+			s2 = c14SweepSeq(t, kind2, p)
 		} else {
-			s2 = c14RandomSeq(p, t, kind, p.n(7))
+			s2 = c14RandomSeq(p, t, kind2, p.n(7))
 		}
 		b.seq("seq", s1)
 		b.seq("seq2", s2)
 		c14Bounds(b, p, use, "start1", "end1", len(s1.elems), sweep)
 		c14Bounds(b, p, use, "start2", "end2", len(s2.elems), sweep)
-		return b.done(kind, "seq", "", sweep), true
+		return b.done(sigKind, "seq", "", sweep), true
 	case "reverse":
 		s := mkSeq(seqLen)
 		b.seq("seq", s)
@@ -1332,8 +1589,9 @@ func c14Build(f c14Fun, kind string, t c14Type, seqLen int, use []string, p c14P
 		}
 		s := mkSeq(seqLen)
 		ord := ords[p.n(len(ords))]
+		ordB := pickB(ords, ord)
 		b.seq("seq", s)
-		b.arg(c14FnLisp(ord), "pred="+ord)
+		b.argVar(c14FnLisp(ord), "pred="+ord, c14FnLisp(ordB), "pred="+ordB)
 		addKey()
 		check := ""
 		if f.name == "sort" {
@@ -1346,23 +1604,27 @@ func c14Build(f c14Fun, kind string, t c14Type, seqLen int, use []string, p c14P
 			return c14Case{}, false
 		}
 		ord := ords[p.n(len(ords))]
+		ordB := pickB(ords, ord)
 		// both inputs sorted by the predicate on the key (the language requires it)
-		less := func(a, c c14Obj) bool {
-			ka, kc := key.f(a), key.f(c)
-			switch ord {
-			case ">":
-				return ka.i > kc.i
-			case "seqshorter":
-				return len(ka.listElems()) < len(kc.listElems())
+		sortedBy := func(ord string, key c14Key) func(c14Seq) c14Seq {
+			less := func(a, c c14Obj) bool {
+				ka, kc := key.f(a), key.f(c)
+				switch ord {
+				case ">":
+					return ka.i > kc.i
+				case "seqshorter":
+					return len(ka.listElems()) < len(kc.listElems())
+				}
+				return ka.i < kc.i
 			}
-			return ka.i < kc.i
+			return func(s c14Seq) c14Seq {
+				s.elems = append([]c14Obj{}, s.elems...)
+				sort.SliceStable(s.elems, func(i, j int) bool { return less(s.elems[i], s.elems[j]) })
+				return s
+			}
 		}
-		sorted := func(s c14Seq) c14Seq {
-			s.elems = append([]c14Obj{}, s.elems...)
-			sort.SliceStable(s.elems, func(i, j int) bool { return less(s.elems[i], s.elems[j]) })
-			return s
-		}
-		b.post = sorted
+		sorted := sortedBy(ord, key)
+		b.post = sortedBy(ordB, keyB)
 		s1, s2 := sorted(mkSeq(seqLen)), sorted(mkSeq(seqLen))
 		if !sweepSeqs {
 			s2 = sorted(c14RandomSeq(p, t, kind, p.n(6)))
@@ -1371,7 +1633,7 @@ func c14Build(f c14Fun, kind string, t c14Type, seqLen int, use []string, p c14P
 		b.arg("'"+rt, "rtype="+rt)
 		b.seq("seq", s1)
 		b.seq("seq2", s2)
-		b.arg(c14FnLisp(ord), "pred="+ord)
+		b.argVar(c14FnLisp(ord), "pred="+ord, c14FnLisp(ordB), "pred="+ordB)
 		addKey()
 		return b.done(kind, "seq", "", sweep), true
 	case "set":
@@ -1400,6 +1662,7 @@ func c14Build(f c14Fun, kind string, t c14Type, seqLen int, use []string, p c14P
 	case "quant", "mapcar", "map":
 		nseq := 1 + p.n(2)
 		fnw := ""
+		var fnCands []string // the functions the position can take (for the variant B)
 		var seqs []c14Seq
 		tt := t
 		if self == "fn" {
@@ -1414,53 +1677,66 @@ func c14Build(f c14Fun, kind string, t c14Type, seqLen int, use []string, p c14P
 			switch t.name {
 			case "int":
 				if nseq == 2 {
-					fnw = []string{"+", "-", "<", "=", "list", "cons", "max"}[p.n(7)]
+					fnCands = []string{"+", "-", "<", "=", "list", "cons", "max"}
 				} else {
-					fnw = []string{"1+", "neg", "evenp", "oddp", "list", "plusp"}[p.n(6)]
+					fnCands = []string{"1+", "neg", "evenp", "oddp", "list", "plusp"}
 				}
 			case "char":
 				if nseq == 2 {
-					fnw = []string{"char=", "char<", "list", "cons"}[p.n(4)]
+					fnCands = []string{"char=", "char<", "list", "cons"}
 				} else {
-					fnw = []string{"upcase", "char-code", "list"}[p.n(3)]
+					fnCands = []string{"upcase", "char-code", "list"}
+				}
+			case "uchar": // eq on characters is not defined by the language: not used
+				if nseq == 2 {
+					fnCands = []string{"char=", "char<", "list", "cons", "eql"}
+				} else {
+					fnCands = []string{"char-code", "list"}
+				}
+			case "oct":
+				if nseq == 2 {
+					fnCands = []string{"+", "<", "=", "list", "cons"}
+				} else {
+					fnCands = []string{"1+", "evenp", "list", "plusp"}
 				}
 			case "pair", "ipair":
 				if nseq == 2 {
-					fnw = []string{"list", "cons", "equal"}[p.n(3)]
+					fnCands = []string{"list", "cons", "equal"}
 				} else {
-					fnw = []string{"car", "cdr", "consp", "list"}[p.n(4)]
+					fnCands = []string{"car", "cdr", "consp", "list"}
 				}
 			case "lst":
 				if nseq == 2 {
-					fnw = []string{"seqsubsetp", "seqsearch", "seqshorter", "equal", "list"}[p.n(5)]
+					fnCands = []string{"seqsubsetp", "seqsearch", "seqshorter", "equal", "list"}
 				} else {
-					fnw = []string{"seqlength", "seqreverse", "seqcount:y61", "seqfind:y61", "seqdedup"}[p.n(5)]
+					fnCands = []string{"seqlength", "seqreverse", "seqcount:y61", "seqfind:y61", "seqdedup"}
 				}
 			case "ilst":
 				if nseq == 2 {
-					fnw = []string{"seqsubsetp", "seqshorter", "equal"}[p.n(3)]
+					fnCands = []string{"seqsubsetp", "seqshorter", "equal"}
 				} else {
-					fnw = []string{"seqsum", "seqlength", "seqreverse"}[p.n(3)]
+					fnCands = []string{"seqsum", "seqlength", "seqreverse"}
 				}
 			default:
 				if nseq == 2 {
-					fnw = []string{"list", "cons", "eq", "equal"}[p.n(4)]
+					fnCands = []string{"list", "cons", "eq", "equal"}
 				} else {
-					fnw = []string{"list", "null"}[p.n(2)]
+					fnCands = []string{"list", "null"}
 				}
 			}
 		} else {
-			ps := c14Preds(t.name, t.alpha)
-			fnw = ps[p.n(len(ps))][0]
-		}
-		fnl := c14FnLisp(fnw)
-		if strings.HasPrefix(fnw, "eqto:") {
-			for _, o := range t.alpha {
-				if w, l := c14EqTo(o); w == fnw {
-					fnl = l
-				}
+			for _, pr := range c14Preds(t.name, t.alpha) {
+				fnCands = append(fnCands, pr[0])
 			}
 		}
+		if len(fnCands) > 0 {
+			fnw = fnCands[p.n(len(fnCands))]
+		}
+		fnwB := fnw
+		if self != "fn" {
+			fnwB = pickB(fnCands, fnw)
+		}
+		fnl, fnlB := c14FnLisp(fnw), c14FnLisp(fnwB)
 		for i := 0; i < nseq; i++ {
 			k := kind
 			if i > 0 && f.fam != "mapcar" && !sweep && p.n(2) == 0 {
@@ -1493,7 +1769,7 @@ func c14Build(f c14Fun, kind string, t c14Type, seqLen int, use []string, p c14P
 		if f.fam == "map" {
 			// result type: any kind the values fit in
 			rts := []string{"list", "vector", "nil"}
-			if fnw == "upcase" {
+			if fnw == "upcase" && fnwB == "upcase" {
 				rts = append(rts, "string")
 			}
 			if self == "fn" {
@@ -1511,10 +1787,19 @@ func c14Build(f c14Fun, kind string, t c14Type, seqLen int, use []string, p c14P
 			want = "seq"
 		}
 		if self == "fn" {
+			if traced {
+				return c14Case{}, false
+			}
 			b.arg(selfLambda(fnw), "self=fn base="+fnw)
 			b.keys = append(b.keys, "fn@self")
+		} else if traced {
+			// the function records the arguments of each of its calls (a side effect the form hands back)
+			v := b.scalar(fnl, "fn="+fnw, fnlB, "fn="+fnwB)
+			b.arg(c14TraceLambda(v, nseq), "trace=t")
+			b.keys = append(b.keys, "fn@traced")
+			b.traced = true
 		} else {
-			b.arg(fnl, "fn="+fnw)
+			b.argVar(fnl, "fn="+fnw, fnlB, "fn="+fnwB)
 		}
 		b.pos = append(b.pos, lisps...)
 		b.fields = append(b.fields, "seqs="+strings.Join(wires, ";"))
@@ -1529,6 +1814,7 @@ func c14Build(f c14Fun, kind string, t c14Type, seqLen int, use []string, p c14P
 			fns = []string{"list", "cons"}
 		}
 		fnw := fns[p.n(len(fns))]
+		fnwB := pickB(fns, fnw)
 		b.arg("", "")
 		b.seq("seq", s)
 		addKey()
@@ -1538,13 +1824,27 @@ func c14Build(f c14Fun, kind string, t c14Type, seqLen int, use []string, p c14P
 			iv := image[p.n(len(image))]
 			b.kw("initial-value", iv.lisp(), "init="+iv.wire())
 			b.keys[len(b.keys)-1] = "init"
-		} else if en-st == 0 && fnw != "+" {
+		} else if en-st == 0 {
 			// an empty subsequence without :initial-value calls the function with no arguments:
 			// only functions with a zero-argument value are in the quantifier
-			fnw = "list"
+			if fnw != "+" {
+				fnw = "list"
+			}
+			if fnwB != "+" {
+				fnwB = "list"
+			}
 		}
-		b.pos[0] = c14FnLisp(fnw)
-		b.fields = append(b.fields, "fn="+fnw)
+		fv := b.scalar(c14FnLisp(fnw), "fn="+fnw, c14FnLisp(fnwB), "fn="+fnwB)
+		b.pos[0] = fv
+		if traced {
+			if en-st == 0 && !c14Has(use, "init") {
+				return c14Case{}, false // the zero-argument call: its own input class
+			}
+			b.pos[0] = c14TraceLambda(fv, 2)
+			b.fields = append(b.fields, "trace=t")
+			b.keys = append(b.keys, "fn@traced")
+			b.traced = true
+		}
 		cs := b.done(kind, "obj", "", sweep)
 		if en-st == 0 && !c14Has(use, "init") {
 			cs.Class = "empty-no-init"
@@ -1600,6 +1900,51 @@ func c14Build(f c14Fun, kind string, t c14Type, seqLen int, use []string, p c14P
 	return c14Case{}, false
 }
 
+// c14PredB: the predicate of the arguments B, from the same candidates
+func c14PredB(ps [][2]string, pr [2]string, pickB func([]string, string) string) [2]string {
+	var ws []string
+	for _, x := range ps {
+		ws = append(ws, x[0])
+	}
+	w := pickB(ws, pr[0])
+	for _, x := range ps {
+		if x[0] == w {
+			return x
+		}
+	}
+	return pr
+}
+
+// c14TraceLambda wraps a function of n arguments so that it records the arguments of every call in
+// the variable `log` of the enclosing form (newest first)
+func c14TraceLambda(fnl string, n int) string {
+	if n == 1 {
+		return "(lambda (x) (setq log (cons (list x) log)) (funcall " + fnl + " x))"
+	}
+	return "(lambda (x y) (setq log (cons (list x y) log)) (funcall " + fnl + " x y))"
+}
+
+// c14KindHolds: can a sequence of the kind hold the elements of the type?
+func c14KindHolds(kind string, t c14Type) bool {
+	switch kind {
+	case "string":
+		return t.name == "char" || t.name == "uchar"
+	case "octets":
+		return t.name == "oct"
+	case "list", "vector":
+		return t.name != "nest" && t.name != "inest"
+	}
+	return false
+}
+
+// c14ElemLisp: an expression for a new element of a sequence of the kind (an octets vector takes octets)
+func c14ElemLisp(kind string, o c14Obj) string {
+	if kind == "octets" {
+		return "(coerce " + o.lisp() + " 'octet)"
+	}
+	return o.lisp()
+}
+
 // c14SelfOK: which user function of a function can re-enter the call (see c14Build)
 func c14SelfOK(f c14Fun, role string) bool {
 	base := strings.TrimSuffix(strings.TrimSuffix(f.name, "-if-not"), "-if")
@@ -1631,7 +1976,7 @@ func c14SelfOK(f c14Fun, role string) bool {
 }
 
 func c14TypeByName(n string) c14Type {
-	for _, t := range []c14Type{c14TSym, c14TInt, c14TChar, c14TPair, c14TIPair, c14TLst, c14TILst, c14TNest, c14TINest} {
+	for _, t := range []c14Type{c14TSym, c14TInt, c14TChar, c14TUChar, c14TOct, c14TPair, c14TIPair, c14TLst, c14TILst, c14TNest, c14TINest} {
 		if t.name == n {
 			return t
 		}
@@ -1646,6 +1991,10 @@ func c14SweepSeq(t c14Type, kind string, p c14Pick) c14Seq {
 	s := c14Seq{kind: kind, tname: t.name}
 	for _, i := range sh {
 		s.elems = append(s.elems, t.alpha[i])
+	}
+	if kind == "fpvector" {
+		s.kind = "vector"
+		s.hidden = []c14Obj{t.alpha[0], t.alpha[1]}
 	}
 	return s
 }
@@ -1727,7 +2076,30 @@ func c14ListedFindings(c *lib.Ctx) []c14Listed {
 
 // c14Avoid: composite cases (and sweep cells with more keywords than a listed cell) stay away from
 // listed constructs: same function and sequence kind with a keyword set containing the listed one.
+// c14KindParts: a kind with an extra token (a fill pointer, a second sequence of another kind) is
+// made of the plain kinds it involves; the extra token counts like one more keyword
+func c14KindParts(kind string) ([]string, bool) {
+	if k, ok := strings.CutSuffix(kind, "+fp"); ok {
+		return []string{k}, true
+	}
+	for _, sep := range []string{"<-", "/"} {
+		if a, b, ok := strings.Cut(kind, sep); ok {
+			return []string{a, b}, true
+		}
+	}
+	return []string{kind}, false
+}
+
 func c14Avoid(listed []c14Listed, fn, kind string, keys []string, strict bool) bool {
+	if parts, extra := c14KindParts(kind); extra {
+		// strictly more tokens than any cell of a plain kind with the same keywords
+		for _, k := range parts {
+			if c14Avoid(listed, fn, k, keys, true) {
+				return true
+			}
+		}
+		return false
+	}
 	for _, l := range listed {
 		if l.class != "" {
 			continue // input classes are matched by c14AvoidClass
@@ -1758,12 +2130,21 @@ func c14Avoid(listed []c14Listed, fn, kind string, keys []string, strict bool) b
 }
 
 func c14AvoidClass(listed []c14Listed, cs c14Case) bool {
+	parts, _ := c14KindParts(cs.Kind)
 	for _, l := range listed {
-		if l.class != "" && l.class == cs.Class && l.fn == cs.Fn && l.seq == cs.Kind {
+		if l.class != "" && l.class == cs.Class && l.fn == cs.Fn && c14Has(parts, l.seq) {
 			return true
 		}
 	}
 	return false
+}
+
+// c14AvoidClassExtra: a sweep cell of a kind with an extra token whose input class is listed for the plain kind
+func c14AvoidClassExtra(listed []c14Listed, cs c14Case) bool {
+	if _, extra := c14KindParts(cs.Kind); !extra || cs.Class == "" {
+		return false
+	}
+	return c14AvoidClass(listed, cs)
 }
 
 // ---------------------------------------------------------------------------------------------
@@ -1771,7 +2152,7 @@ func c14AvoidClass(listed []c14Listed, cs c14Case) bool {
 
 type c14Obs struct {
 	ok    bool
-	wires []string // the results of the three evaluations of the call form (arguments A, A, B)
+	wires []string // the results of the three evaluations of the call form (arguments A, B, A)
 	wire  string   // the one under comparison
 	class string
 	msg   string
@@ -1805,7 +2186,7 @@ func (o c14Obs) String() string {
 	return "err " + o.class + " (" + o.msg + ")"
 }
 
-// c14AspectAll compares the three evaluations (arguments A, A, B) with the model's answers for A
+// c14AspectAll compares the three evaluations (arguments A, B, A) with the model's answers for A
 // and B. The aspect of the first disagreeing call is reported; a disagreement that only shows from
 // the second evaluation on (state kept between calls, re-entrancy) is marked @call<n>.
 func c14AspectAll(cs c14Case, obs c14Obs, modelA, modelB string, checks [3]string) (string, int) {
@@ -1820,12 +2201,12 @@ func c14AspectAll(cs c14Case, obs c14Obs, modelA, modelB string, checks [3]strin
 	}
 	for j := 0; j < 3; j++ {
 		m := modelA
-		if j == 2 {
+		if j == 1 {
 			m = modelB
 		}
 		a := c14Aspect(cs, c14Obs{ok: true, wire: obs.wires[j]}, m, checks[j])
 		if a != "" {
-			if j == 1 {
+			if j == 2 {
 				// the same arguments gave the right answer at the first evaluation: the form keeps state
 				a += "@reeval"
 			}
@@ -1895,7 +2276,7 @@ func c14Checks(c *lib.Ctx, cs c14Case, obs c14Obs, modelA, modelB string) [3]str
 	var idx []int
 	for j, w := range obs.wires {
 		req, m := cs.Req, modelA
-		if j == 2 {
+		if j == 1 {
 			req, m = cs.ReqB, modelB
 		}
 		if strings.HasPrefix(w, "?") || !strings.HasPrefix(m, "ok ") {
@@ -1947,7 +2328,7 @@ func c14Replay(c *lib.Ctx) {
 	obs := c14Impl(slip.NewScope(), cs)
 	models := c.Model([]string{cs.Req, cs.ReqB})
 	checks := c14Checks(c, cs, obs, models[0], models[1])
-	fmt.Printf("replay %s\n  (the call form is compiled once and evaluated three times: arguments A, A, B)\n  source        : %s\n  implementation: %s\n", cs.Call, cs.Src, obs)
+	fmt.Printf("replay %s\n  (the call form is compiled once and evaluated three times: arguments A, B, A)\n  source        : %s\n  implementation: %s\n", cs.Call, cs.Src, obs)
 	if obs.ok {
 		for j, w := range obs.wires {
 			fmt.Printf("    call %d = %s\n", j+1, c14Pretty("ok "+w))
@@ -1958,7 +2339,7 @@ func c14Replay(c *lib.Ctx) {
 		fmt.Printf("  relation %s on the implementation's results: %v\n", cs.Check, checks)
 	}
 	if a, _ := c14AspectAll(cs, obs, models[0], models[1], checks); a != "" {
-		c.Report(c14Signature(cs, a), false, map[string]any{"input": cs.Call, "observed": obs.String(), "expected": models[0] + " | " + models[0] + " | " + models[1]})
+		c.Report(c14Signature(cs, a), false, map[string]any{"input": cs.Call, "observed": obs.String(), "expected": models[0] + " | " + models[1] + " | " + models[0]})
 	}
 }
 
@@ -1983,7 +2364,11 @@ func runC14(c *lib.Ctx) {
 	// --- single-cause sweep: function x sequence kind x element type x keyword subsets of size <= 2,
 	//     exhaustively over the fixed sequences and the boundary values of each keyword
 	for _, f := range funs {
-		for _, kind := range f.kinds {
+		kinds := f.kinds
+		if c14Has(f.kinds, "vector") {
+			kinds = append(append([]string{}, kinds...), "fpvector") // vectors with a fill pointer
+		}
+		for _, kind := range kinds {
 			for _, t := range c14TypesFor(kind) {
 				var subsets [][]string
 				subsets = append(subsets, nil)
@@ -1993,23 +2378,68 @@ func runC14(c *lib.Ctx) {
 						subsets = append(subsets, []string{a, b2})
 					}
 				}
+				// the function argument records its calls (every some notany notevery map mapcar reduce)
+				if f.fam == "quant" || f.fam == "map" || f.fam == "mapcar" || f.fam == "reduce" {
+					subsets = append(subsets, []string{"trace"})
+					for _, a := range f.kws {
+						subsets = append(subsets, []string{"trace", a})
+					}
+				}
+				// the keyword arguments in a list handed to apply, a keyword absent from the list of one of
+				// the evaluations (absent -> present -> absent and the converse)
+				if (t.name == "sym" || t.name == "int" || t.name == "char" || t.name == "oct") && kind != "fpvector" {
+					for _, a := range f.kws {
+						subsets = append(subsets, []string{"spread", a})
+					}
+					if c14Has(f.kws, "start") && c14Has(f.kws, "end") {
+						subsets = append(subsets, []string{"spread", "start", "end"})
+					}
+				}
+				// the two sequences of search / mismatch / replace are of different kinds
+				if f.fam == "search" || f.fam == "mismatch" || f.fam == "replace" {
+					for _, ok := range c14Kinds4 {
+						if ok == kind || kind == "fpvector" || !c14KindHolds(ok, t) {
+							continue
+						}
+						subsets = append(subsets, []string{"other:" + ok})
+						for _, a := range f.kws {
+							subsets = append(subsets, []string{"other:" + ok, a})
+						}
+					}
+				}
 				for _, use := range subsets {
 					// pairs of keywords: on the plain element types only (symbols, integers;
-					// characters on strings; pair types when :key is one of the two); the other
-					// element types are swept with at most one keyword
-					if len(use) == 2 {
-						plain := t.name == "sym" || t.name == "int" || kind == "string"
+					// characters on strings, octets; pair types when :key is one of the two); the other
+					// element types (and vectors with a fill pointer) are swept with at most one keyword
+					if len(use) == 2 && !strings.Contains(use[0], ":") && use[0] != "trace" && use[0] != "spread" {
+						plain := (t.name == "sym" || t.name == "int" || t.name == "char" || t.name == "oct") && kind != "fpvector"
 						keyed := c14Has(use, "key") && (t.name == "pair" || t.name == "ipair")
 						if !plain && !keyed {
 							continue
 						}
 					}
+					// the new sequence kinds are swept with fewer value combinations per cell
+					limit := 400
+					switch {
+					case len(use) > 0 && strings.HasPrefix(use[0], "other:"):
+						limit = 40
+					case len(use) > 0 && use[0] == "spread":
+						limit = 60
+					case kind == "fpvector":
+						limit = 60
+					case kind == "octets" && len(use) == 2:
+						limit = 100
+					case t.name == "uchar":
+						limit = 150
+					case len(use) == 2 && (f.fam == "search" || f.fam == "mismatch" || strings.Contains(f.name, "substitute")):
+						limit = 240 // the families with the most keyword pairs
+					}
 					en := &c14Enum{}
-					for n := 0; n < 400; n++ {
+					for n := 0; n < limit; n++ {
 						en.pos = 0
 						cs, ok := c14Build(f, kind, t, 0, use, en, true, true)
 						// a cell whose keyword set strictly contains a listed cell is not generated
-						if ok && !c14Avoid(listed, cs.Fn, cs.Kind, cs.Keys, false) {
+						if ok && !c14Avoid(listed, cs.Fn, cs.Kind, cs.Keys, false) && !c14AvoidClassExtra(listed, cs) {
 							add(cs)
 						}
 						if !en.next() {
@@ -2026,7 +2456,7 @@ func runC14(c *lib.Ctx) {
 				continue
 			}
 			for _, kind := range f.kinds {
-				if kind == "string" {
+				if kind == "string" || kind == "octets" {
 					continue
 				}
 				for _, t := range []c14Type{c14TNest, c14TINest} {
@@ -2070,14 +2500,39 @@ func runC14(c *lib.Ctx) {
 			}
 		}
 	}
+	// the sort family on sequences longer than the 12 elements up to which Go's sort.Slice is an insertion
+	// sort (stable): fixed pseudo-random sequences with many equal keys, every key and order of the type
+	for _, f := range funs {
+		if f.fam != "sort" {
+			continue
+		}
+		for _, kind := range f.kinds {
+			for _, t := range c14TypesFor(kind) {
+				for _, use := range [][]string{nil, {"key"}} {
+					for li, n := range []int{13, 17, 24, 33, 48} {
+						lcg := &c14LCG{x: uint32(1 + 7*li + len(t.name))}
+						for rep := 0; rep < 2; rep++ {
+							cs, ok := c14Build(f, kind, t, n, use, lcg, true, false)
+							if ok && !c14Avoid(listed, cs.Fn, cs.Kind, cs.Keys, false) {
+								add(cs)
+							}
+						}
+					}
+				}
+			}
+		}
+	}
 	nSweep := len(cases)
 
 	// --- composite: random function, kind, element type, length 0..8, any keyword subset, in-range values
-	nRandom := c.Scale(150000, 2500000)
+	nRandom := c.Scale(110000, 2500000)
 	pick := c14Rand{c.Rng}
 	for i := 0; i < nRandom; i++ {
 		f := funs[c.Rng.Intn(len(funs))]
 		kind := f.kinds[c.Rng.Intn(len(f.kinds))]
+		if kind == "vector" && c.Rng.Chance(30) {
+			kind = "fpvector"
+		}
 		ts := c14TypesFor(kind)
 		t := ts[c.Rng.Intn(len(ts))]
 		var use []string
@@ -2085,6 +2540,15 @@ func runC14(c *lib.Ctx) {
 			if c.Rng.Chance(40) {
 				use = append(use, k)
 			}
+		}
+		if (f.fam == "quant" || f.fam == "map" || f.fam == "mapcar" || f.fam == "reduce") && c.Rng.Chance(35) {
+			use = append(use, "trace")
+		}
+		if len(use) > 0 && c.Rng.Chance(25) {
+			use = append(use, "spread")
+		}
+		if (f.fam == "search" || f.fam == "mismatch" || f.fam == "replace") && kind != "fpvector" && c.Rng.Chance(35) {
+			use = append(use, "other:"+c14Kinds4[c.Rng.Intn(len(c14Kinds4))])
 		}
 		if c.Rng.Chance(20) && kind != "string" {
 			// a user function that re-enters the call itself, on nested lists
@@ -2105,6 +2569,9 @@ func runC14(c *lib.Ctx) {
 				}
 				use = append(keep, "self:"+role)
 				t = []c14Type{c14TNest, c14TINest}[c.Rng.Intn(2)]
+				if kind == "fpvector" || kind == "octets" {
+					kind = "vector"
+				}
 			}
 		}
 		n := c.Rng.Intn(9)
@@ -2129,7 +2596,7 @@ func runC14(c *lib.Ctx) {
 	nExh := len(cases) - nSweep - nComposite
 
 	// --- run: the model answers for the arguments A and B of every case; the implementation evaluates
-	//     the call form three times (A, A, B) inside one lambda
+	//     the call form three times (A, B, A) inside one lambda
 	reqs := make([]string, 0, 2*len(cases))
 	for _, cs := range cases {
 		reqs = append(reqs, cs.Req, cs.ReqB)
@@ -2147,7 +2614,7 @@ func runC14(c *lib.Ctx) {
 		}
 		for j, w := range obs[i].wires {
 			req, m := cs.Req, replies[2*i]
-			if j == 2 {
+			if j == 1 {
 				req, m = cs.ReqB, replies[2*i+1]
 			}
 			if strings.HasPrefix(w, "?") || !strings.HasPrefix(m, "ok ") {
@@ -2185,10 +2652,10 @@ func runC14(c *lib.Ctx) {
 			continue
 		}
 		m := mA
-		if j == 2 {
+		if j == 1 {
 			m = mB
 		}
-		expected := mA + " | " + mA + " | " + mB
+		expected := mA + " | " + mB + " | " + mA
 		from := "model:seq." + c14Entry(cs.Fn)
 		if cs.Check != "" {
 			expected = "any result accepted by " + cs.Check + ", e.g. " + m
@@ -2216,7 +2683,7 @@ func runC14(c *lib.Ctx) {
 	c.Ev.Coverage["composite_cases"] = nComposite
 	c.Ev.Coverage["exhaustive_cases"] = nExh
 	c.Ev.Coverage["relation_checks"] = len(checkReqs)
-	c.Ev.Coverage["rule"] = "case = one call (function, sequence(s), keyword arguments); distinct by source text; non-trivial = at least 2 keywords present or first sequence of length >= 3; sweep = function x sequence kind x element type x keyword subsets of size <= 2 over 5 fixed sequences and boundary values (seed independent); composite = random call with any keyword subset, lengths 0..8 over 4-symbol alphabets; thorough adds all sequences of length <= 4 for the scan families"
+	c.Ev.Coverage["rule"] = "case = one call form (function, sequence(s), keyword arguments) compiled once as the body of a lambda and evaluated three times (arguments A, B, A: B = other sequences, other in-range keyword values, other :key/:test/predicate/order functions, all passed as parameters); distinct by source text; non-trivial = at least 2 keywords present or first sequence of length >= 3; sweep (seed independent) = function x sequence kind (list, vector, string, octets, vector with fill pointer, two sequences of different kinds) x element type (symbols, integers, characters incl. multi-byte, octets, pairs, lists) x keyword subsets of size <= 2 over 5 fixed sequences and boundary values, plus: keyword list handed to apply with a keyword absent from one evaluation, function argument recording its calls (every some notany notevery map mapcar reduce), user functions re-entering the form, long sequences for the sort family; composite = random call with any keyword subset, lengths 0..8 over 4-symbol alphabets (sort family up to 48); thorough adds all sequences of length <= 4 for the scan families"
 }
 
 // c14Exhaustive: all sequences of length <= 4 over the alphabet for the scan families.
